@@ -31,7 +31,7 @@ KEY_FEATURES = ('codec', 'route')
 
 
 def plan(tier, seed):
-    return C.plan_counts(tier, 16 * 1200, 16 * 25000)
+    return C.plan_counts(tier, 16 * 4800, 16 * 25000)
 
 
 def readonly_uses(obj, rng, used):
